@@ -70,6 +70,9 @@ pub trait Rule: RuleClone + Debug + Send {
             } else {
                 format!("{rendered}{equal_quantifier}")
             }
+        } else if kind == "escaped" {
+            let rendered = keep_trailing_no_eol(rendered);
+            format!("{rendered} ({kind}{quantifier})")
         } else {
             format!("{rendered} ({kind}{quantifier})")
         }
